@@ -1,4 +1,5 @@
 import Driver.Limiter
+import Driver.Breaker
 /-!
 # Model driver (DIFF tie)
 
@@ -11,6 +12,7 @@ open Driver
 
 structure All where
   lim : Limiter.St := {}
+  brk : Breaker.St := {}
 
 def splitObs (line : String) : String × Option String :=
   match line.splitOn " => " with
@@ -25,13 +27,7 @@ partial def loop (h : IO.FS.Stream) (st : All) (caseId : String) (lineNo cases o
   if line.isEmpty then loop h st caseId (lineNo+1) cases ops diffs quiet else
   let (body, obs) := splitObs line
   let toks := (body.splitOn " ").filter (· ≠ "")
-  match toks with
-  | "case" :: id :: _ =>
-    -- new case: reset per-case state, keep counters
-    loop h { lim := { nontrivial := st.lim.nontrivial } } id (lineNo+1) (cases+1) ops diffs quiet
-  | "limiter" :: rest =>
-    let (l', exp) := Limiter.step st.lim rest
-    let st' := { st with lim := l' }
+  let handle (st' : All) (exp : Option String) : IO (Nat × Nat × Nat × All) :=
     match obs, exp with
     | some o, some e =>
       if o.trim == e then loop h st' caseId (lineNo+1) cases (ops+1) diffs quiet
@@ -42,6 +38,16 @@ partial def loop (h : IO.FS.Stream) (st : All) (caseId : String) (lineNo cases o
       unless quiet do IO.println s!"{body} => {e}"
       loop h st' caseId (lineNo+1) cases (ops+1) diffs quiet
     | _, none => loop h st' caseId (lineNo+1) cases ops diffs quiet
+  match toks with
+  | "case" :: id :: _ =>
+    -- new case: reset per-case state, keep counters
+    loop h { lim := { nontrivial := st.lim.nontrivial }, brk := { nontrivial := st.brk.nontrivial, transitions := st.brk.transitions, refused := st.brk.refused } } id (lineNo+1) (cases+1) ops diffs quiet
+  | "limiter" :: rest =>
+    let (l', exp) := Limiter.step st.lim rest
+    handle { st with lim := l' } exp
+  | "breaker" :: rest =>
+    let (b', exp) := Breaker.step st.brk rest
+    handle { st with brk := b' } exp
   | _ => do
     IO.println s!"DIFF case={caseId} line={lineNo} | {line} | model=unknown-slice"
     loop h st caseId (lineNo+1) cases ops (diffs+1) quiet
@@ -49,5 +55,5 @@ partial def loop (h : IO.FS.Stream) (st : All) (caseId : String) (lineNo cases o
 def main (args : List String) : IO UInt32 := do
   let stdin ← IO.getStdin
   let (cases, ops, diffs, st) ← loop stdin {} "-" 1 0 0 0 (args.contains "--quiet")
-  IO.println s!"SUMMARY cases={cases} ops={ops} diffs={diffs} nontrivial={st.lim.nontrivial}"
+  IO.println s!"SUMMARY cases={cases} ops={ops} diffs={diffs} nontrivial={st.lim.nontrivial + st.brk.nontrivial} breaker_transitions={st.brk.transitions} breaker_refusals={st.brk.refused}"
   return (if diffs == 0 then 0 else 1)
